@@ -273,7 +273,41 @@ fn span(m: Option<Match<'_>>) -> Option<(usize, usize)> {
 }
 
 fn mode_c09(s: &mut Session, re: &Regex, p: &str, t: &str, limit: usize) {
-    let r = catch_unwind(AssertUnwindSafe(|| {
+    let r = catch_unwind(AssertUnwindSafe(|| c09_fails(re, t)));
+    s.count("coherence_cases");
+    match r {
+        Err(_) => {
+            viol(s, "C09", "panic", p, t, "an entry point panicked".into());
+            s.line(&format!("citer\t{}\t{}", hex(t), limit), "PANIC");
+        }
+        Ok((fails, citems)) => {
+            for f in fails {
+                viol(s, "C09", "incoherent", p, t, f);
+            }
+            s.line(&format!("citer\t{}\t{}", hex(t), limit), &join(citems));
+        }
+    }
+    // the same coherence under a builder option (the entry points must not read the options differently)
+    if t.len() <= 6 {
+        if let Ok(re_ci) = fancy_regex::RegexBuilder::new(p).case_insensitive(true).build() {
+            let up = t.to_uppercase();
+            for tt in [t, up.as_str()] {
+                s.count("coherence_cases_builder_casei");
+                match catch_unwind(AssertUnwindSafe(|| c09_fails(&re_ci, tt))) {
+                    Err(_) => viol(s, "C09", "panic", p, tt, "an entry point panicked (case_insensitive(true))".into()),
+                    Ok((fails, _)) => {
+                        for f in fails {
+                            viol(s, "C09", "incoherent", p, tt, format!("RegexBuilder::case_insensitive(true): {}", f));
+                        }
+                    }
+                }
+            }
+        }
+    }
+}
+
+fn c09_fails(re: &Regex, t: &str) -> (Vec<String>, Vec<String>) {
+    {
         let mut fails: Vec<String> = Vec::new();
         let is_match = re.is_match(t);
         let find = re.find(t);
@@ -330,19 +364,6 @@ fn mode_c09(s: &mut Session, re: &Regex, p: &str, t: &str, limit: usize) {
             fails.push(format!("find_iter={} captures_iter={}", show_span_items(&fi), show_span_items(&ci)));
         }
         (fails, citems)
-    }));
-    s.count("coherence_cases");
-    match r {
-        Err(_) => {
-            viol(s, "C09", "panic", p, t, "an entry point panicked".into());
-            s.line(&format!("citer\t{}\t{}", hex(t), limit), "PANIC");
-        }
-        Ok((fails, citems)) => {
-            for f in fails {
-                viol(s, "C09", "incoherent", p, t, f);
-            }
-            s.line(&format!("citer\t{}\t{}", hex(t), limit), &join(citems));
-        }
     }
 }
 
